@@ -1,7 +1,564 @@
-// Engine `tsync`; filled in by a later step.
-use super::Script;
+// Engine `tsync` (property C18): a REAL master task and a REAL outstation task, each over its own
+// PhysLayer::Mock, under the paused tokio clock.  The engine is the channel between them: every
+// application fragment written by one side is queued on the other side after the scripted one-way
+// delay (whole milliseconds of virtual time).  Nothing is settled with a tick: the engine is woken
+// at the very instant a fragment is written (it awaits the mock's event channel) and it advances
+// virtual time only by sleeping until the next scheduled arrival, so every time stamp in the trace is
+// exact and the model charges no settle time at all.
+//
+//   cfg: c0=<master clock at t=0, ms>  proc=lan|nonlan|direct  timeout=<response timeout ms>
+//        need=auto|stuck|clear   (NEED_TIME of the outstation: until a time is written | always | never)
+//   ops: sync <token>            user request AssociationHandle::synchronize_time(procedure)
+//        fwd <ms> | back <ms>    one-way delays for the messages written from now on
+//        hold <ms>               actual processing delay of the outstation (response held that long)
+//        proc <ms>               processing delay the outstation REPORTS in g52v2 (saturates at 65535)
+//        drop fwd|back           the next message in that direction is lost
+//        dup fwd|back <ms>       the next message is delivered twice, the copy <ms> later
+//        tamper objs <hex> | iin <hex4> | ctl <hex2>
+//                                the next outstation->master fragment gets its objects replaced /
+//                                IIN bits or-ed / control byte xor-ed
+//        mclock on|off           AssociationHandler::get_current_time answers / returns None
+//        inject_master <hex>     an unrelated fragment is handed to the master now
+//        run <ms>                let virtual time pass
+//   trace: m2o <t_send> <t_arrive|drop> <hex>   o2m <t_send> <t_arrive|drop> <hex>   inj <t> <hex>
+//          written <t> <timestamp>              res <token> ok | res <token> err <kind>
+//          clock <t> <master clock | none>      (last line)
+
+use super::{hex, unhex, Script};
+use crate::app::parse::options::ParseOptions;
+use crate::app::{Timeout, Timestamp};
+use crate::link::header::{FrameInfo, FrameType};
+use crate::link::reader::LinkModes;
+use crate::link::EndpointAddress;
+use crate::master::AssociationConfig;
+use crate::master::task::MasterTask;
+use crate::master::{
+    AssociationHandle, AssociationHandler, AssociationInformation, MasterChannel,
+    MasterChannelConfig, MasterChannelType, ReadHandler, TaskError, TimeSyncError,
+    TimeSyncProcedure,
+};
+use crate::outstation::database::EventBufferConfig;
+use crate::outstation::task::OutstationTask;
+use crate::outstation::{
+    ApplicationIin, DefaultControlHandler, Feature, OutstationApplication, OutstationConfig,
+    OutstationInformation, RequestError,
+};
+use crate::util::phys::{PhysAddr, PhysLayer};
+use crate::util::session::Enabled;
+use sfio_tokio_mock_io::Event;
+use std::future::Future;
+use std::pin::Pin;
+use std::sync::{Arc, Mutex};
+use std::task::Poll;
+use std::time::Duration;
+use tokio::time::Instant;
+
+#[derive(Copy, Clone, PartialEq)]
+enum NeedMode {
+    Auto,
+    Stuck,
+    Clear,
+}
+
+struct Shared {
+    log: Vec<String>,
+    base: Instant,
+    c0: u64,
+    clock_on: bool,
+    reported_delay: u16,
+    need_mode: NeedMode,
+    need_time: bool,
+}
+
+impl Shared {
+    fn now_ms(&self) -> u64 {
+        Instant::now().saturating_duration_since(self.base).as_millis() as u64
+    }
+    fn clock(&self) -> Option<u64> {
+        if !self.clock_on {
+            return None;
+        }
+        let v = self.c0 as u128 + self.now_ms() as u128;
+        if v > Timestamp::MAX_VALUE as u128 {
+            None // the master's clock no longer fits a DNP3 time stamp
+        } else {
+            Some(v as u64)
+        }
+    }
+}
+
+struct ClockHandler(Arc<Mutex<Shared>>);
+
+impl AssociationHandler for ClockHandler {
+    fn get_current_time(&self) -> Option<Timestamp> {
+        self.0.lock().unwrap().clock().map(Timestamp::new)
+    }
+}
+
+struct NullRead;
+impl ReadHandler for NullRead {}
+struct NullAssocInfo;
+impl AssociationInformation for NullAssocInfo {}
+struct NullOutInfo;
+impl OutstationInformation for NullOutInfo {}
+
+struct App(Arc<Mutex<Shared>>);
+
+impl OutstationApplication for App {
+    fn get_processing_delay_ms(&self) -> u16 {
+        self.0.lock().unwrap().reported_delay
+    }
+
+    fn write_absolute_time(&mut self, time: Timestamp) -> Result<(), RequestError> {
+        let mut s = self.0.lock().unwrap();
+        let t = s.now_ms();
+        s.log.push(format!("written {} {}", t, time.raw_value()));
+        if s.need_mode == NeedMode::Auto {
+            s.need_time = false;
+        }
+        Ok(())
+    }
+
+    fn get_application_iin(&self) -> ApplicationIin {
+        ApplicationIin {
+            need_time: self.0.lock().unwrap().need_time,
+            ..Default::default()
+        }
+    }
+}
+
+fn err_kind(err: TimeSyncError) -> String {
+    match err {
+        TimeSyncError::Task(TaskError::ResponseTimeout) => "timeout".to_string(),
+        TimeSyncError::Task(TaskError::RejectedByIin2(_)) => "iin2".to_string(),
+        TimeSyncError::Task(TaskError::UnexpectedResponseHeaders) => "headers".to_string(),
+        TimeSyncError::Task(TaskError::MalformedResponse(_)) => "malformed".to_string(),
+        TimeSyncError::Task(TaskError::MultiFragmentResponse) => "multifrag".to_string(),
+        TimeSyncError::Task(_) => "task".to_string(),
+        TimeSyncError::ClockRollback => "rollback".to_string(),
+        TimeSyncError::SystemTimeNotUnix => "notunix".to_string(),
+        TimeSyncError::BadOutstationTimeDelay(x) => format!("delay {}", x),
+        TimeSyncError::Overflow => "overflow".to_string(),
+        TimeSyncError::StillNeedsTime => "needtime".to_string(),
+        TimeSyncError::SystemTimeNotAvailable => "nosystime".to_string(),
+        TimeSyncError::IinError(_) => "iinerror".to_string(),
+    }
+}
+
+struct InFlight {
+    arrive: u64,
+    ord: u64,
+    to_master: bool,
+    data: Vec<u8>,
+}
+
+enum Tamper {
+    Objs(Vec<u8>),
+    Iin(u8, u8),
+    Ctl(u8),
+}
+
+struct Channel {
+    shared: Arc<Mutex<Shared>>,
+    fwd: u64,
+    back: u64,
+    hold: u64,
+    drop_fwd: u32,
+    drop_back: u32,
+    dup_fwd: Option<u64>,
+    dup_back: Option<u64>,
+    tamper: Vec<Tamper>,
+    queue: Vec<InFlight>,
+    ord: u64,
+}
+
+impl Channel {
+    fn now(&self) -> u64 {
+        self.shared.lock().unwrap().now_ms()
+    }
+
+    fn log(&self, line: String) {
+        self.shared.lock().unwrap().log.push(line);
+    }
+
+    fn push(&mut self, arrive: u64, to_master: bool, data: &[u8]) {
+        self.ord += 1;
+        self.queue.push(InFlight {
+            arrive,
+            ord: self.ord,
+            to_master,
+            data: data.to_vec(),
+        });
+    }
+
+    /// the master wrote a fragment
+    fn master_wrote(&mut self, data: Vec<u8>) {
+        let t = self.now();
+        if self.drop_fwd > 0 {
+            self.drop_fwd -= 1;
+            self.log(format!("m2o {} drop {}", t, hex(&data)));
+            return;
+        }
+        let arrive = t + self.fwd;
+        self.log(format!("m2o {} {} {}", t, arrive, hex(&data)));
+        self.push(arrive, false, &data);
+        if let Some(extra) = self.dup_fwd.take() {
+            self.log(format!("m2o {} {} {}", t, arrive + extra, hex(&data)));
+            self.push(arrive + extra, false, &data);
+        }
+    }
+
+    /// the outstation wrote a fragment
+    fn outstation_wrote(&mut self, mut data: Vec<u8>) {
+        let t = self.now();
+        for tm in self.tamper.drain(..) {
+            match tm {
+                Tamper::Objs(o) => {
+                    data.truncate(4);
+                    data.extend_from_slice(&o);
+                }
+                Tamper::Iin(a, b) => {
+                    if data.len() >= 4 {
+                        data[2] |= a;
+                        data[3] |= b;
+                    }
+                }
+                Tamper::Ctl(x) => {
+                    if !data.is_empty() {
+                        data[0] ^= x;
+                    }
+                }
+            }
+        }
+        if self.drop_back > 0 {
+            self.drop_back -= 1;
+            self.log(format!("o2m {} drop {}", t, hex(&data)));
+            return;
+        }
+        let arrive = t + self.hold + self.back;
+        self.log(format!("o2m {} {} {}", t, arrive, hex(&data)));
+        self.push(arrive, true, &data);
+        if let Some(extra) = self.dup_back.take() {
+            self.log(format!("o2m {} {} {}", t, arrive + extra, hex(&data)));
+            self.push(arrive + extra, true, &data);
+        }
+    }
+
+    fn next_arrival(&self) -> Option<u64> {
+        self.queue.iter().map(|m| m.arrive).min()
+    }
+
+    /// remove the message that is due first (arrival time, then order of sending)
+    fn pop_due(&mut self, now: u64) -> Option<InFlight> {
+        let mut best: Option<usize> = None;
+        for (i, m) in self.queue.iter().enumerate() {
+            if m.arrive <= now {
+                best = match best {
+                    None => Some(i),
+                    Some(j) => {
+                        let b = &self.queue[j];
+                        if (m.arrive, m.ord) < (b.arrive, b.ord) {
+                            Some(i)
+                        } else {
+                            Some(j)
+                        }
+                    }
+                };
+            }
+        }
+        best.map(|i| self.queue.remove(i))
+    }
+}
+
+type SyncFuture = Pin<Box<dyn Future<Output = Result<(), TimeSyncError>>>>;
+
+enum Wake {
+    Result(usize, Result<(), TimeSyncError>),
+    Master(Event),
+    Outstation(Event),
+    Timer,
+    Quiet,
+}
+
+/// hand one fragment to a task and wait until its mock has consumed it; the task then runs until it
+/// blocks again before this function returns (single thread), whatever it writes meanwhile is seen
+/// as events afterwards
+async fn deliver(
+    handle: &mut sfio_tokio_mock_io::Handle,
+    data: &[u8],
+    mut on_write: impl FnMut(Vec<u8>),
+) {
+    handle.read(data);
+    loop {
+        match handle.next_event().await {
+            Event::Read => break,
+            Event::Write(w) => on_write(w),
+            _ => {}
+        }
+    }
+}
 
 pub(crate) async fn run_tsync(script: &Script, obs: &mut Vec<String>) {
-    let _ = script;
-    obs.push("unimplemented".to_string());
+    let c0 = script.cfg_u64("c0", 0);
+    let procedure = match script.cfg_str("proc", "lan").as_str() {
+        "lan" => TimeSyncProcedure::Lan,
+        "nonlan" => TimeSyncProcedure::NonLan,
+        "direct" => TimeSyncProcedure::DirectWriteAbsTime,
+        x => panic!("bad procedure {}", x),
+    };
+    let timeout_ms = script.cfg_u64("timeout", 5000);
+    let need_mode = match script.cfg_str("need", "auto").as_str() {
+        "auto" => NeedMode::Auto,
+        "stuck" => NeedMode::Stuck,
+        "clear" => NeedMode::Clear,
+        x => panic!("bad need mode {}", x),
+    };
+
+    let shared = Arc::new(Mutex::new(Shared {
+        log: Vec::new(),
+        base: Instant::now(),
+        c0,
+        clock_on: true,
+        reported_delay: 0,
+        need_mode,
+        need_time: need_mode != NeedMode::Clear,
+    }));
+
+    let master_address = EndpointAddress::try_new(1).unwrap();
+    let outstation_address = EndpointAddress::try_new(1024).unwrap();
+
+    // ---- master: the constructor sequence of master/tests/harness/mod.rs
+    let (m_io, mut m_handle) = sfio_tokio_mock_io::mock();
+    let mut m_io = PhysLayer::Mock(m_io);
+    let (tx, rx) = crate::util::channel::request_channel();
+    let mut m_task = MasterTask::new(
+        Enabled::Yes,
+        LinkModes::test(),
+        ParseOptions::default(),
+        MasterChannelConfig::new(master_address),
+        rx,
+    );
+    let mut master = MasterChannel::new(tx, MasterChannelType::Stream);
+    m_task.set_rx_frame_info(FrameInfo::new(
+        outstation_address,
+        None,
+        FrameType::Data,
+        PhysAddr::None,
+    ));
+    let m_join = tokio::spawn(async move { m_task.run(&mut m_io).await });
+
+    let mut config = AssociationConfig::quiet(); // no start-up handshake, no automatic tasks
+    config.response_timeout = Timeout::from_millis(timeout_ms).expect("timeout out of range");
+    config.auto_time_sync = None;
+    config.keep_alive_timeout = None;
+    let association: AssociationHandle = master
+        .add_association(
+            outstation_address,
+            config,
+            Box::new(NullRead),
+            Box::new(ClockHandler(shared.clone())),
+            Box::new(NullAssocInfo),
+        )
+        .await
+        .unwrap();
+
+    // ---- outstation: the constructor sequence of outstation/tests/harness/harness.rs
+    let mut o_config = OutstationConfig::new(
+        outstation_address,
+        master_address,
+        EventBufferConfig::all_types(5),
+    );
+    o_config.features.unsolicited = Feature::Disabled;
+    o_config.keep_alive_timeout = None;
+    let (o_task, _o_handle_api) = OutstationTask::create(
+        Enabled::Yes,
+        LinkModes::test(),
+        ParseOptions::get_static(),
+        o_config,
+        PhysAddr::None,
+        Box::new(App(shared.clone())),
+        Box::new(NullOutInfo),
+        DefaultControlHandler::create(),
+    );
+    let mut o_task = Box::new(o_task);
+    o_task
+        .get_reader()
+        .get_inner()
+        .set_rx_frame_info(FrameInfo::new(
+            master_address,
+            None,
+            FrameType::Data,
+            PhysAddr::None,
+        ));
+    let (o_io, mut o_handle) = sfio_tokio_mock_io::mock();
+    let mut o_io = PhysLayer::Mock(o_io);
+    let o_join = tokio::spawn(async move { o_task.run(&mut o_io).await });
+
+    // prologue (not part of the trace): clear the outstation's DEVICE_RESTART indication so that
+    // the master does not schedule its clear-restart task; sequence number 15 keeps the request
+    // distinct from the master's first one
+    deliver(
+        &mut o_handle,
+        &[0xCF, 0x02, 0x50, 0x01, 0x00, 0x07, 0x07, 0x00],
+        |_| {},
+    )
+    .await;
+    while o_handle.pop_event().is_some() {}
+    {
+        let mut s = shared.lock().unwrap();
+        s.base = Instant::now();
+        s.log.clear();
+    }
+
+    let mut chan = Channel {
+        shared: shared.clone(),
+        fwd: 0,
+        back: 0,
+        hold: 0,
+        drop_fwd: 0,
+        drop_back: 0,
+        dup_fwd: None,
+        dup_back: None,
+        tamper: Vec::new(),
+        queue: Vec::new(),
+        ord: 0,
+    };
+    let mut pending: Vec<(String, SyncFuture)> = Vec::new();
+
+    for op in &script.ops {
+        match op[0].as_str() {
+            "sync" => {
+                let mut a = association.clone();
+                let p = procedure;
+                pending.push((
+                    op[1].clone(),
+                    Box::pin(async move { a.synchronize_time(p).await }),
+                ));
+            }
+            "fwd" => chan.fwd = op[1].parse().unwrap(),
+            "back" => chan.back = op[1].parse().unwrap(),
+            "hold" => chan.hold = op[1].parse().unwrap(),
+            "proc" => {
+                let v: u64 = op[1].parse().unwrap();
+                shared.lock().unwrap().reported_delay = v.min(65535) as u16;
+            }
+            "drop" => match op[1].as_str() {
+                "fwd" => chan.drop_fwd += 1,
+                "back" => chan.drop_back += 1,
+                x => panic!("bad direction {}", x),
+            },
+            "dup" => {
+                let extra: u64 = op[2].parse().unwrap();
+                match op[1].as_str() {
+                    "fwd" => chan.dup_fwd = Some(extra),
+                    "back" => chan.dup_back = Some(extra),
+                    x => panic!("bad direction {}", x),
+                }
+            }
+            "tamper" => {
+                let arg = unhex(&op[2]);
+                chan.tamper.push(match op[1].as_str() {
+                    "objs" => Tamper::Objs(arg),
+                    "iin" => Tamper::Iin(arg[0], arg[1]),
+                    "ctl" => Tamper::Ctl(arg[0]),
+                    x => panic!("bad tamper {}", x),
+                });
+            }
+            "mclock" => shared.lock().unwrap().clock_on = op[1] == "on",
+            "inject_master" => {
+                let data = unhex(&op[1]);
+                let t = chan.now();
+                chan.log(format!("inj {} {}", t, hex(&data)));
+                let mut wrote = Vec::new();
+                deliver(&mut m_handle, &data, |w| wrote.push(w)).await;
+                for w in wrote {
+                    chan.master_wrote(w);
+                }
+            }
+            "run" => {
+                let ms: u64 = op[1].parse().unwrap();
+                let target = chan.now() + ms;
+                let base = shared.lock().unwrap().base;
+                let mut finishing = false;
+                loop {
+                    let deadline = chan.next_arrival().map_or(target, |a| a.min(target));
+                    let wake = {
+                        let results = std::future::poll_fn(|cx| {
+                            for (i, (_, f)) in pending.iter_mut().enumerate() {
+                                if let Poll::Ready(r) = f.as_mut().poll(cx) {
+                                    return Poll::Ready((i, r));
+                                }
+                            }
+                            Poll::Pending
+                        });
+                        tokio::select! {
+                            biased;
+                            (i, r) = results => Wake::Result(i, r),
+                            e = m_handle.next_event() => Wake::Master(e),
+                            e = o_handle.next_event() => Wake::Outstation(e),
+                            _ = std::future::ready(()), if finishing => Wake::Quiet,
+                            _ = tokio::time::sleep_until(base + Duration::from_millis(deadline)) => Wake::Timer,
+                        }
+                    };
+                    match wake {
+                        Wake::Result(i, r) => {
+                            let (token, _) = pending.remove(i);
+                            chan.log(match r {
+                                Ok(()) => format!("res {} ok", token),
+                                Err(e) => format!("res {} err {}", token, err_kind(e)),
+                            });
+                        }
+                        Wake::Master(Event::Write(w)) => chan.master_wrote(w),
+                        Wake::Outstation(Event::Write(w)) => chan.outstation_wrote(w),
+                        Wake::Master(_) | Wake::Outstation(_) => {}
+                        Wake::Quiet | Wake::Timer => {
+                            let quiet = matches!(wake, Wake::Quiet);
+                            let now = chan.now();
+                            if let Some(m) = chan.pop_due(now) {
+                                let mut wrote = Vec::new();
+                                if m.to_master {
+                                    deliver(&mut m_handle, &m.data, |w| wrote.push(w)).await;
+                                    for w in wrote {
+                                        chan.master_wrote(w);
+                                    }
+                                } else {
+                                    deliver(&mut o_handle, &m.data, |w| wrote.push(w)).await;
+                                    for w in wrote {
+                                        chan.outstation_wrote(w);
+                                    }
+                                }
+                            } else if quiet {
+                                break;
+                            } else if now >= target {
+                                // let every task that was woken by its own timer at this instant
+                                // run, then drain what they produced, then stop
+                                for _ in 0..4 {
+                                    tokio::task::yield_now().await;
+                                }
+                                finishing = true;
+                            }
+                        }
+                    }
+                }
+            }
+            x => panic!("bad op {}", x),
+        }
+    }
+
+    {
+        let mut s = shared.lock().unwrap();
+        let t = s.now_ms();
+        let line = match s.clock() {
+            Some(v) => format!("clock {} {}", t, v),
+            None => format!("clock {} none", t),
+        };
+        s.log.push(line);
+        obs.append(&mut s.log);
+    }
+
+    drop(pending);
+    m_join.abort();
+    o_join.abort();
+    let _ = m_join.await;
+    let _ = o_join.await;
 }
